@@ -156,9 +156,15 @@ pub fn displays_as<D: core::fmt::Display>(e: &D, expect: &str) -> bool {
 probe!(TagA, 0x0000_000a);
 probe!(TagB, 0x0000_0b00);
 probe!(TagC, 0x000c_0000);
+/// A user DATA type that merely shares its name with the std marker (field letter `P` of the generator): it implements every
+/// operator, so scalar Mul-like derives must apply the operator to it like to any other field.
+pub mod sim {
+    use super::*;
+    probe!(PhantomData, 0x00d0_0000);
+}
 '''
 
-NAMES = ["x", "y", "z"]
+NAMES = ["x", "y", "z"] + ["f%d" % i for i in range(3, 16)]
 
 
 def acc(kind, i):
@@ -167,8 +173,10 @@ def acc(kind, i):
 
 def body_decl(kind, fields, pub="pub ", ty="Tag%s"):
     if kind == "tuple":
-        return "(" + ", ".join(pub + ty % f for f in fields) + ")"
-    return " { " + ", ".join("%s%s: %s" % (pub, NAMES[i], ty % f) for i, f in enumerate(fields)) + " }"
+        r = "(" + ", ".join(pub + ty % f for f in fields) + ")"
+    else:
+        r = " { " + ", ".join("%s%s: %s" % (pub, NAMES[i], ty % f) for i, f in enumerate(fields)) + " }"
+    return r.replace("TagP", "sim::PhantomData")
 
 
 def forall_fields(kind, fields, fmt):
@@ -178,7 +186,7 @@ def forall_fields(kind, fields, fmt):
 
 # ----------------------------------------------------------------------------------------------- structs
 
-def struct_program(kind, fields, group, with_contract=False, with_control=False, generic=False):
+def struct_program(kind, fields, group, with_contract=False, with_control=False, generic=False, only=None, sumprod=True):
     """group in add | mulfwd | mulscalar | unary.  generic: `struct G<PA, PB>(PA, PB, PA)` used at `T = G<TagA, TagB>`"""
     key = "s%s%s_%s_%s" % ("t" if kind == "tuple" else "n", "g" if generic else "", "".join(fields).lower(), group)
     derives, attrs, posts, proofs, hs = [], [], [], [], []
@@ -186,6 +194,10 @@ def struct_program(kind, fields, group, with_contract=False, with_control=False,
     ctor = "G" if generic else "T"
     decl_fields = body_decl(kind, fields, ty="P%s" if generic else "Tag%s")
     ops = ADD_OPS if group == "add" else MUL_OPS
+    if only:
+        # reduced programs (only some traits of the group, no Sum/Product); the key names the subset
+        ops = [o for o in ops if o[0] in only]
+        key += "_" + "".join(o[1] for o in ops)
     fnbase = "derive_more-generated <T as %s>::%s"
 
     if group in ("add", "mulfwd"):
@@ -218,35 +230,36 @@ def struct_program(kind, fields, group, with_contract=False, with_control=False,
             hs.append(Harness("ob_" + m, "forall a b: T. forall i. (a %s b).f_i == a.f_i %s b.f_i" % (sym, sym), fn=fnbase % (tr, m)))
             hs.append(Harness("ob_%s_assign" % m, "forall a b: T. {x = a; x %s= b; x}.f_i == {t = a.f_i; t %s= b.f_i; t} and x == a %s b" % (sym, sym, sym),
                               fn=fnbase % (tr + "Assign", m + "_assign")))
-        # Sum (needs Add) / Product (needs Mul<Self>)
-        tr, m, optr, opm = ("Sum", "sum", "Add", "add") if group == "add" else ("Product", "product", "Mul", "mul")
-        derives.append(tr)
-        ident = (ctor + "(" + ", ".join("<Tag%s as core::iter::%s>::%s(core::iter::empty::<Tag%s>())" % (f, tr, m, f) for f in fields) + ")") \
-            if kind == "tuple" else \
-            (ctor + " { " + ", ".join("%s: <Tag%s as core::iter::%s>::%s(core::iter::empty::<Tag%s>())" % (NAMES[i], f, tr, m, f)
-                                for i, f in enumerate(fields)) + " }")
-        posts.append('''/// the field-wise empty %(m)s
-pub fn identity_%(m)s() -> T { %(ident)s }
-/// `%(tr)s`: equals folding the first `n` items with `%(optr)s` starting from the field-wise empty %(m)s
-pub fn post_%(m)s(items: &[T; 3], n: usize, r: &T) -> bool {
-    let mut acc = identity_%(m)s();
-    if n > 0 { acc = <T as core::ops::%(optr)s>::%(opm)s(acc, items[0]); }
-    if n > 1 { acc = <T as core::ops::%(optr)s>::%(opm)s(acc, items[1]); }
-    if n > 2 { acc = <T as core::ops::%(optr)s>::%(opm)s(acc, items[2]); }
-    *r == acc
-}''' % dict(m=m, tr=tr, optr=optr, opm=opm, ident=ident))
-        proofs.append('''    #[kani::proof]
-    fn ob_%(m)s() {
-        let items: [T; 3] = kani::any();
-        let n: usize = kani::any();
-        kani::assume(n <= 3);
-        let r = <T as core::iter::%(tr)s>::%(m)s(items.into_iter().take(n));
-        assert!(post_%(m)s(&items, n, &r), "post_%(m)s");
-        kani::cover!(n == 0, "empty iterator");
-        kani::cover!(n == 3, "three items");
-    }''' % dict(m=m, tr=tr))
-        hs.append(Harness("ob_" + m, "forall items: [T;3], n <= 3. %s(items[..n]) == fold(items[..n], field-wise empty %s, %s::%s)" % (m, m, optr, opm),
-                          bounded="iterator length <= 3", fn=fnbase % (tr, m), cover_min=2))
+        if sumprod:
+            # Sum (needs Add) / Product (needs Mul<Self>)
+            tr, m, optr, opm = ("Sum", "sum", "Add", "add") if group == "add" else ("Product", "product", "Mul", "mul")
+            derives.append(tr)
+            ident = (ctor + "(" + ", ".join("<Tag%s as core::iter::%s>::%s(core::iter::empty::<Tag%s>())" % (f, tr, m, f) for f in fields) + ")") \
+                if kind == "tuple" else \
+                (ctor + " { " + ", ".join("%s: <Tag%s as core::iter::%s>::%s(core::iter::empty::<Tag%s>())" % (NAMES[i], f, tr, m, f)
+                                    for i, f in enumerate(fields)) + " }")
+            posts.append('''/// the field-wise empty %(m)s
+    pub fn identity_%(m)s() -> T { %(ident)s }
+    /// `%(tr)s`: equals folding the first `n` items with `%(optr)s` starting from the field-wise empty %(m)s
+    pub fn post_%(m)s(items: &[T; 3], n: usize, r: &T) -> bool {
+        let mut acc = identity_%(m)s();
+        if n > 0 { acc = <T as core::ops::%(optr)s>::%(opm)s(acc, items[0]); }
+        if n > 1 { acc = <T as core::ops::%(optr)s>::%(opm)s(acc, items[1]); }
+        if n > 2 { acc = <T as core::ops::%(optr)s>::%(opm)s(acc, items[2]); }
+        *r == acc
+    }''' % dict(m=m, tr=tr, optr=optr, opm=opm, ident=ident))
+            proofs.append('''    #[kani::proof]
+        fn ob_%(m)s() {
+            let items: [T; 3] = kani::any();
+            let n: usize = kani::any();
+            kani::assume(n <= 3);
+            let r = <T as core::iter::%(tr)s>::%(m)s(items.into_iter().take(n));
+            assert!(post_%(m)s(&items, n, &r), "post_%(m)s");
+            kani::cover!(n == 0, "empty iterator");
+            kani::cover!(n == 3, "three items");
+        }''' % dict(m=m, tr=tr))
+            hs.append(Harness("ob_" + m, "forall items: [T;3], n <= 3. %s(items[..n]) == fold(items[..n], field-wise empty %s, %s::%s)" % (m, m, optr, opm),
+                              bounded="iterator length <= 3", fn=fnbase % (tr, m), cover_min=2))
     elif group == "mulscalar":
         for tr, m, sym in ops:
             derives += [tr, tr + "Assign"]
@@ -444,6 +457,8 @@ ENUMS = {
     "tuples": [V("A", "tuple", "AA"), V("B", "tuple", "AA"), V("C", "tuple", "ABC")],
     "nameds": [V("A", "named", "AA"), V("B", "named", "AA"), V("C", "named", "ABA")],
     "units": [V("U"), V("W")],
+    # `P()` and `Q {}` have no fields but are NOT unit variants: Not/Neg must keep `Output = E` (no Result wrapping)
+    "empties": [V("A", "tuple", "AB"), V("P", "tuple", ""), V("Q", "named", "")],
     "unit_first": [V("U"), V("A", "named", "BA"), V("B", "tuple", "BAB")],
 }
 
@@ -505,7 +520,7 @@ def enum_program(ename, group, error_text=False):
                 if v[1] == "unit":
                     arms.append("        (E::%s, E::%s, Err(BinaryError::Unit(_))) => true," % (v[0], v[0]))
                 else:
-                    cond = " && ".join("*o%d == l%d %s r%d" % (i, i, sym, i) for i in range(len(v[2])))
+                    cond = " && ".join("*o%d == l%d %s r%d" % (i, i, sym, i) for i in range(len(v[2]))) or "true"
                     arms.append("        (%s, %s, Ok(%s)) => %s," % (variant_pat(v, "l"), variant_pat(v, "r"), variant_pat(v, "o"), cond))
             arms.append("        (a, b, Err(BinaryError::Mismatch(_))) => !same_variant(&a, &b),")
             arms.append("        _ => false,")
@@ -558,7 +573,7 @@ pub fn post_%(m)s(a: E, b: E, r: &Result<E, BinaryError>) -> bool {
                 if v[1] == "unit":
                     arms.append("        (E::%s, Err(_)) => true," % v[0])
                 else:
-                    cond = " && ".join("*o%d == %sl%d" % (i, sym, i) for i in range(len(v[2])))
+                    cond = " && ".join("*o%d == %sl%d" % (i, sym, i) for i in range(len(v[2]))) or "true"
                     opat = variant_pat(v, "o")
                     arms.append("        (%s, %s) => %s," % (variant_pat(v, "l"), ("Ok(%s)" % opat) if has_unit else opat, cond))
             if multi or has_unit:
@@ -645,7 +660,7 @@ def family(tier, seed):
         shapes = [("tuple", "A"), ("tuple", "AB"), ("tuple", "ABA"),
                   ("named", "A"), ("named", "AA"), ("named", "ABC")]
         generic_shapes = [("tuple", "ABA"), ("named", "AB")]
-        enums = ["mixed", "nounit", "single", "unit_first"]
+        enums = ["mixed", "nounit", "single", "unit_first", "empties"]
     else:
         fs = ["A", "AA", "AB", "AAA", "AAB", "ABA", "ABB", "ABC", "CBA"]
         shapes = [(k, f) for k in ("tuple", "named") for f in fs]
@@ -662,6 +677,14 @@ def family(tier, seed):
     for kind, f in generic_shapes:
         for g in STRUCT_GROUPS:
             progs.append(struct_program(kind, list(f), g, generic=True))
+    # >= 11 fields of one type: positions "10", "11" sort before "2" as strings -- a by-name ordering of the per-field
+    # expressions permutes the fields of the by-value operators (and makes `a += b` disagree with `a + b`)
+    wide = list("A" * 12)
+    progs.append(struct_program("tuple", wide, "add", only=("Add", "Sub", "BitXor"), sumprod=False))
+    progs.append(struct_program("tuple", wide, "mulfwd", only=("Mul",), sumprod=False))
+    # a data field whose type is merely NAMED `PhantomData` (common::sim::PhantomData implements every operator)
+    for kind, f in (("tuple", "AP"), ("named", "PA")):
+        progs.append(struct_program(kind, list(f), "mulscalar", only=("Mul", "Shl")))
     # Sum/Product must fold with the struct's OWN Add/Mul -- also for a single-field struct (a "newtype shortcut" that unwraps the
     # items and uses the field's Sum/Product is only visible when the struct's operator is not the field's)
     if tier == "quick":
